@@ -142,6 +142,11 @@ func GenTree(prop string, r *sim.Rand, tier string) sim.Script {
 			s.Observe = "clone"
 		}
 		s.IterAll = r.Chance(1, 3)
+		for i := range s.Ops {
+			if s.Ops[i].K == "merge" && r.Chance(1, 3) {
+				s.Ops[i].N = 1 // if this merge is rejected it is tried again at once
+			}
+		}
 	}
 	return sc
 }
@@ -448,6 +453,7 @@ func genNested(s *TreeScript, r *sim.Rand) sim.Script {
 // GenRounds generates a multi-round script (C04, C05).
 func GenRounds(prop string, r *sim.Rand, tier string) sim.Script {
 	s := &RoundScript{Prop: prop, Lag: r.Intn(3), Rebase: r.Chance(1, 2)}
+	defer func() { s.WriteErr = r.Chance(1, 6) }() // drawn last
 	profile := []string{"tiny", "fixed", "mixed", "dense", "dense"}[r.Intn(5)]
 	nPool := 2 + r.Intn(8)
 	nRounds := 1 + r.Intn(5)
@@ -620,7 +626,7 @@ func GenSched(r *sim.Rand, tier string) sim.Script {
 				case 2:
 					ops = append(ops, Op{K: "get", P: p})
 				case 3:
-					ops = append(ops, Op{K: "save", N: int64(r.Intn(2))}) // N=1: with deletes (Reopen runs)
+					ops = append(ops, Op{K: "save", N: int64([]int{0, 1, 0, 2}[r.Intn(4)])}) // N=1: with deletes (Reopen runs); N=2: the store refuses the write
 				case 4:
 					ops = append(ops, Op{K: "savecancel", N: int64(r.Intn(2))})
 				default:
